@@ -875,9 +875,16 @@ func Merge[T any](in ...Stream[T]) Stream[T] {
 	nDone := uint32(0)
 	closeOnce := uint32(0)
 	ctx, cancel := context.WithCancel(context.Background())
+	if len(in) == 0 {
+		sender.Close(nil)
+	}
+	var wg sync.WaitGroup
+	wg.Add(len(in))
 	for i := 0; i < len(in); i++ {
 		i := i
 		go func() {
+			defer wg.Done()
+			defer in[i].Close()
 			defer func() {
 				if int(atomic.AddUint32(&nDone, 1)) == len(in) &&
 					atomic.LoadUint32(&closeOnce) == 0 {
@@ -903,7 +910,13 @@ func Merge[T any](in ...Stream[T]) Stream[T] {
 			}
 		}()
 	}
-	return receiver
+	return &mergeStream[T]{
+		inner: receiver,
+		cancel: func() {
+			cancel()
+			wg.Wait()
+		},
+	}
 }
 
 type mergeStream[T any] struct {
